@@ -320,10 +320,21 @@ def main():
   while k < n_models:
     directed = rng.random() < 0.3
     shared = rng.random() < 0.15
+    bmm_sq = (k % 8 == 5)
     if shared:
       # one constant, two consumers, a different float-compute config per consumer
       mb, info = shared_weight_model(rng)
       dist['directed:shared-weight'] += 1
+    elif bmm_sq:
+      # BATCH_MATMUL with a SQUARE constant right-hand side (the per-channel axis
+      # cannot be told from the shape) under a per-channel float-compute config
+      gg.BMM_SQUARE_PROB = 1.0
+      try:
+        mb, info = gg.gen_model(rng, n_subgraphs=1, max_ops=rng.choice([1, 2, 3]),
+                                op_weights=['BATCH_MATMUL'] * 5 + ['TANH', 'ADD'])
+      finally:
+        gg.BMM_SQUARE_PROB = 0.35
+      dist['directed:square-bmm'] += 1
     else:
       mb, info = gg.gen_model(rng, max_ops=rng.choice([2, 4, 6]), op_weights=wops if rng.random() < 0.7 else None)
     qt = quantizer.Quantizer(bytearray(mb))
@@ -333,6 +344,11 @@ def main():
       ca, cb = rng.sample(FLOAT_CFGS, 2)
       desc = gr.apply_rules(qt, [('^' + _re.escape('serving_default/fc0/out;') + '$', '*', ncfg[ca][0], ca),
                                  ('^' + _re.escape('serving_default/fc1/out;') + '$', '*', ncfg[cb][0], cb)])
+      if not desc:
+        continue
+    elif bmm_sq:
+      c = rng.choice(['drq8', 'drq8', 'wo8'])
+      desc = gr.apply_rules(qt, [('.*', '*', ncfg[c][0], c)])
       if not desc:
         continue
     elif r < 0.3:
